@@ -53,7 +53,10 @@ pub fn check_c09(tier: Tier) -> i32 {
         "the C06/C07/C08 history spaces (length <= {}) restricted to histories containing >= 1 deletion (function, global, memory - local or imported - and export), including deletions of entities that are still referenced. No dangling reference: exactly the deleted entities are absent from the encoded module and every other entity is present (token multisets per index space). Dangling reference: encoding must fail loudly (panic); an output in which the dangling site designates any entity is the violation; a site that is dropped (start section) is accepted. Non-trivial class = distinct operation multiset.",
         depth
     );
-    let judge = |c: &Clause, _h: &[Op]| matches!(c.kind, ClauseKind::Dangling | ClauseKind::DupId) || c.sig.starts_with("entities ") || c.sig.starts_with("panic-encode") || c.sig.starts_with("panic-op Delete") || c.sig.starts_with("site export") && c.sig.contains(" extra");
+    let judge = |c: &Clause, _h: &[Op]| matches!(c.kind, ClauseKind::Dangling | ClauseKind::DupId) || c.sig.starts_with("entities ") || c.sig.starts_with("panic-encode") || c.sig.starts_with("panic-op Delete") || c.sig.starts_with("site export") && c.sig.contains(" extra")
+        // after a deletion no surviving reference may designate another entity (for instance the later
+        // items of an element segment from which a deleted function was silently dropped)
+        || c.sig.contains(" wrong-entity");
     let relevant = |h: &[Op]| h.iter().any(is_delete);
     let fa = fn_alphabet(false);
     let ga = global_alphabet();
@@ -277,7 +280,7 @@ pub fn replay(id: &str, case: &serde_json::Value) -> Vec<Mismatch> {
     bases.extend(c29_bases());
     match id {
         "C05" => replay_history(&bases, case, CFG3, &|c, _| c.kind == ClauseKind::Reencode),
-        "C09" => replay_history(&bases, case, CFG1, &|c, _| matches!(c.kind, ClauseKind::Dangling | ClauseKind::DupId) || c.sig.starts_with("entities ") || c.sig.starts_with("panic-")),
+        "C09" => replay_history(&bases, case, CFG1, &|c, _| matches!(c.kind, ClauseKind::Dangling | ClauseKind::DupId) || c.sig.starts_with("entities ") || c.sig.starts_with("panic-") || c.sig.contains(" wrong-entity") || c.sig.starts_with("site export") && c.sig.contains(" extra")),
         "C29" => replay_history(&bases, case, CFGN, &|c, _| c.kind == ClauseKind::Names),
         _ => replay_history(&bases, case, CFG1, &|c, _| matches!(c.kind, ClauseKind::Func | ClauseKind::Generic | ClauseKind::DupId)),
     }
